@@ -57,3 +57,70 @@ PLANS["C03"] = {
     "assumptions": ["own GCM/CCM/ChaCha20-Poly1305 models (cross-checked against libcrypto EVP at start-up) "
                     "and SNOW-V-GCM model are correct"],
 }
+
+
+def _simple(engine, quick, thorough, args=(), shards=N, flavour="base", timeout=(900, 3600)):
+    def runs(tier, seed):
+        return [{"engine": engine, "args": list(args), "cases": thorough if tier == "thorough" else quick,
+                 "shards": shards, "flavour": flavour, "timeout": timeout[1] if tier == "thorough" else timeout[0]}]
+    return runs
+
+
+PLANS["C04"] = {
+    "level": "exploration",
+    "runs": _simple("mix", 24000, 600000),
+    "cov_class": "C04",
+    "rule": ("cases = jobs inside schedule-fuzzer episodes (4..56 jobs from 1-3 focus suites sharing OOO "
+             "managers + background/AEAD suites, chained jobs in both orders, length modes tiny/equal/"
+             "increasing/one-huge, random flush/get-completed/drain points, checked and no-check submit); every "
+             "returned job is compared with the reference and 5% are re-run alone on a fresh manager. distinct "
+             "= distinct (variant, cipher, hash, jobs of the same suite in flight at completion, chained, order, "
+             "API call that completed it) states; non-trivial = all (every job has a non-empty message)."),
+    "floors": {"quick": {"jobs_checked": 100000, "alone_twins": 3000, "cov:C04": 3000},
+               "thorough": {"jobs_checked": 3000000}},
+    "assumptions": ["reference models as in C01-C03", "interleavings are sampled, not enumerated"],
+}
+PLANS["C05"] = {
+    "level": "exploration",
+    "runs": _simple("ring", 6000, 300000),
+    "cov_class": "C05",
+    "rule": ("cases = API histories (scripted: every ring phase 0..255 x parked oldest job x 254..315 further "
+             "submissions incl. the full-queue condition, rejected job at head/middle/tail; burst scripts: queue "
+             "filled to exactly 256, bursts 0/1/127/128/129, NULL array, out-of-order, stale suite id, invalid "
+             "member, short get_next_burst; random histories) checked call-by-call against the FIFO model. "
+             "distinct = distinct (variant, API, script, ring phase bucket, parameters, full-hit, wrapped) "
+             "tuples; non-trivial = history wrapped the ring, hit the full condition or contained a rejected job "
+             "(all scripted ones do)."),
+    "floors": {"quick": {"histories": 3000, "ring_full_events": 1000, "ring_wraps": 1000, "rejected_jobs": 500},
+               "thorough": {"histories": 100000}},
+    "assumptions": ["job API and burst API are not mixed inside one history (the property says 'or')"],
+}
+PLANS["C06"] = {
+    "level": "exploration",
+    "runs": _simple("suite", 1, 1, timeout=(1200, 2400)),
+    "cov_class": "C06",
+    "exhaustive": True,
+    "rule": ("exhaustive: every cell of cipher_mode(28) x key size {8,16,24,32} x direction(2) x hash_alg(49) x "
+             "chain order(2) = 21952 cells on each of the 7 variants, through the job API and through "
+             "imb_set_session + burst API on separate managers; acceptance model from README/header; accepted "
+             "cells are executed in place and compared with reference(stage A) then reference(stage B); CUSTOM "
+             "callbacks log the dispatch order. distinct = cells x variants; non-trivial = cell was submitted "
+             "(all)."),
+    "floors": {"quick": {"cells": 150000, "cells_executed_and_verified": 50000, "custom_dispatch_probes": 5000}},
+    "assumptions": ["PON and SGL cells are checked for acceptance/rejection only here (executed by C03/C10 "
+                    "engines)", "cells the documents are silent about (CBCS with 192/256-bit keys, CCM with the "
+                    "other chain order) are counted, not judged"],
+}
+PLANS["C20"] = {
+    "level": "fault_enumeration",
+    "runs": _simple("selftest", 300, 20000, shards=N),
+    "cov_class": "C20",
+    "exhaustive": True,
+    "rule": ("fault enumeration over the self-test entries announced by the callback stream (33 on this build): "
+             "each entry corrupted alone (exhaustive), pairs (quick: every 6th pair, thorough: all 528), random "
+             "subsets, on each of the 16 (init function, flags) configurations; after each init the FAIL set, "
+             "callback order, pass bit, IMB_FEATURE_SELF_TEST and errno are checked. distinct = distinct "
+             "(configuration, corruption set) cases; non-trivial = at least one entry corrupted."),
+    "floors": {"quick": {"inits": 2000, "selftest_entries": 400}},
+    "assumptions": ["the documented algorithm list is taken from README section 'Self-Test'"],
+}
